@@ -903,3 +903,41 @@ feature test {
     expected.sort();
     assert_eq!(b_maps_to, expected);
 }
+
+// `sub [b c]' [b c]' by b; sub [b c]' [a b]' by c;`: all the component sequences of one inline
+// ligature rule must live in the lookup that the contextual rule references.
+#[test]
+fn inline_contextual_ligature_sequences_stay_in_one_lookup() {
+    use write_fonts::tables::gsub::SubstitutionLookup;
+
+    let compilation = compile_fea(
+        "\
+languagesystem DFLT dflt;
+feature test {
+    sub [b c]' [b c]' by b;
+    sub [b c]' [a b]' by c;
+} test;
+",
+        "inline_contextual_ligature_one_lookup",
+    );
+    let gsub = compilation.gsub.unwrap();
+    // every ligature lookup holds all the sequences of its rule: 4 for the first (bb bc cb cc),
+    // 4 for the second (ba bb ca cb)
+    let mut sizes = Vec::new();
+    for lookup in gsub.lookup_list.lookups.iter() {
+        if let SubstitutionLookup::Ligature(lookup) = lookup.as_ref() {
+            let n: usize = lookup
+                .subtables
+                .iter()
+                .map(|sub| {
+                    sub.ligature_sets
+                        .iter()
+                        .map(|set| set.ligatures.len())
+                        .sum::<usize>()
+                })
+                .sum();
+            sizes.push(n);
+        }
+    }
+    assert_eq!(sizes, vec![4, 4]);
+}
